@@ -6,14 +6,15 @@ import ASV.Proofs.ModulesLine
 namespace ASV.Modules
 open T Spec
 
-def sameHdr (a b : LineItem) : Prop := a.index = b.index ∧ a.strand = b.strand ∧ a.region = b.region
+def sameHdr (a b : LineItem) : Prop :=
+  a.index = b.index ∧ a.strand = b.strand ∧ a.region = b.region ∧ a.barrier = b.barrier
 
-theorem sameHdr.rfl' (a : LineItem) : sameHdr a a := ⟨rfl, rfl, rfl⟩
+theorem sameHdr.rfl' (a : LineItem) : sameHdr a a := ⟨rfl, rfl, rfl, rfl⟩
 
 theorem mergeable_congr {a a' b b' : LineItem} (ha : sameHdr a a') (hb : sameHdr b b') :
     mergeable a b = mergeable a' b' := by
   unfold mergeable
-  rw [ha.1, ha.2.1, ha.2.2, hb.1, hb.2.1, hb.2.2]
+  rw [ha.1, ha.2.1, ha.2.2.1, ha.2.2.2, hb.1, hb.2.1, hb.2.2.1, hb.2.2.2]
 
 
 
@@ -61,7 +62,7 @@ theorem lineGo_exchange (preE : List (Bool × List Comp)) (q : Option LineItem) 
     lineGo (preE ++ interleave q (x :: y :: rest)) acc = lineGo (preE ++ interleave q (x' :: y' :: rest)) acc := by
   have hm' : mergeable x' y' = true := by rw [← mergeable_congr hx hy]; exact hm
   have hs : x.strand = y.strand := by
-    unfold mergeable at hm; simp only [Bool.and_eq_true, beq_iff_eq] at hm; exact hm.2
+    unfold mergeable at hm; simp only [Bool.and_eq_true, beq_iff_eq] at hm; exact hm.1.1.2
   have s1 : sepBefore (some x) y = [] := by simp [sepBefore, hm]
   have s2 : sepBefore (some x') y' = [] := by simp [sepBefore, hm']
   simp only [interleave_cons, s1, s2, List.nil_append]
@@ -73,10 +74,12 @@ theorem lineGo_exchange (preE : List (Bool × List Comp)) (q : Option LineItem) 
 
 /-! ### items -/
 
-def itemR (r : GeneResult) : LineItem := ⟨r.index, r.strand, r.region, r.modules.flatMap (·.components)⟩
-def itemG (g : Gene) : LineItem := ⟨g.index, g.strand, g.region, keptComps g.name g.domains⟩
-def hdr2 (r : GeneResult) : String × Int × Nat × Nat := (r.name, r.strand, r.region, r.index)
-def ghdr2 (g : Gene) : String × Int × Nat × Nat := (g.name, g.strand, g.region, g.index)
+def itemR (r : GeneResult) : LineItem := ⟨r.index, r.strand, r.region, r.modules.flatMap (·.components), r.bare⟩
+def itemG (g : Gene) : LineItem :=
+  ⟨g.index, g.strand, g.region, keptComps g.name g.domains, (keptComps g.name g.domains).isEmpty⟩
+def hdr2 (r : GeneResult) : String × Int × Nat × Nat × Bool := (r.name, r.strand, r.region, r.index, r.bare)
+def ghdr2 (g : Gene) : String × Int × Nat × Nat × Bool :=
+  (g.name, g.strand, g.region, g.index, (keptComps g.name g.domains).isEmpty)
 
 /-- the genes are numbered consecutively from `n` -/
 def Consec : Nat → List Gene → Prop
@@ -88,15 +91,16 @@ theorem chainGo_blocks : ∀ (genes : List Gene) (n : Nat) (results : List GeneR
     (live = true → ∀ prev, results.getLast? = some prev → prev.index + 1 = n) →
     (∀ g ∈ genes, g.name.isEmpty = false ∧ ∀ d ∈ g.domains, (classify d.label).isSome = true) →
     (∀ r ∈ results, ∀ m ∈ r.modules, Good m) →
+    (∀ r ∈ results, r.bare = true → r.modules = []) →
     ∃ out, chainGo genes results live = .ok out ∧ (∀ r ∈ out, ∀ m ∈ r.modules, Good m)
       ∧ out.map hdr2 = results.map hdr2 ++ (genes.filter liveGene).map ghdr2
       ∧ ∀ acc, lineGo (interleave none (out.map itemR)) acc
               = lineGo (interleave none (results.map itemR ++ (genes.filter liveGene).map itemG)) acc := by
   intro genes
   induction genes with
-  | nil => intro n results live _ _ _ hr; exact ⟨results, rfl, hr, by simp, by simp⟩
+  | nil => intro n results live _ _ _ hr _; exact ⟨results, rfl, hr, by simp, by simp⟩
   | cons g rest ih =>
-    intro n results live hcon hlink hg hr
+    intro n results live hcon hlink hg hr hbare
     obtain ⟨hidx, hcon'⟩ := hcon
     have hrest : ∀ g ∈ rest, g.name.isEmpty = false ∧ ∀ d ∈ g.domains, (classify d.label).isSome = true :=
       fun x hx => hg x (List.mem_cons_of_mem _ hx)
@@ -106,7 +110,7 @@ theorem chainGo_blocks : ∀ (genes : List Gene) (n : Nat) (results : List GeneR
       simp only [if_true]
       have hl : liveGene g = false := by simp [liveGene, hskip]
       simp only [List.filter_cons, hl, Bool.false_eq_true, if_false]
-      exact ih (n + 1) results false hcon' (fun h => by cases h) hrest hr
+      exact ih (n + 1) results false hcon' (fun h => by cases h) hrest hr hbare
     | false =>
       simp only [Bool.false_eq_true, if_false]
       have hl : liveGene g = true := by simp [liveGene, hskip]
@@ -116,25 +120,40 @@ theorem chainGo_blocks : ∀ (genes : List Gene) (n : Nat) (results : List GeneR
       rw [hb] at hb'; injection hb' with hb'; subst hb'
       rw [hb]
       simp only
-      have hitem : itemR ⟨g.name, g.strand, g.region, ms, g.index⟩ = itemG g := by
-        unfold itemR itemG; simp only; rw [hflat, kept_eq]
+      have hempty : ms.isEmpty = (keptComps g.name g.domains).isEmpty := by
+        rw [← kept_eq, ← hflat]
+        cases ms with
+        | nil => rfl
+        | cons m ms' =>
+          have hne := (hs m (List.mem_cons_self)).2
+          cases hc : m.components with
+          | nil => exact absurd hc hne
+          | cons c cs => simp [hc]
+      have hitem : itemR ⟨g.name, g.strand, g.region, ms, g.index, ms.isEmpty⟩ = itemG g := by
+        unfold itemR itemG; simp only; rw [hflat, kept_eq, hempty]
       have linkNext : ∀ (l : List GeneResult) (x : GeneResult), x.index = g.index →
           (true = true → ∀ prev, (l ++ [x]).getLast? = some prev → prev.index + 1 = n + 1) := by
         intro l x hx _ prev hp
         rw [List.getLast?_concat] at hp; injection hp with hp; subst hp; rw [hx, hidx]
-      have plain : ∃ out, chainGo rest (results ++ [⟨g.name, g.strand, g.region, ms, g.index⟩]) true = .ok out
+      have plain : ∃ out, chainGo rest (results ++ [⟨g.name, g.strand, g.region, ms, g.index, ms.isEmpty⟩]) true = .ok out
           ∧ (∀ r ∈ out, ∀ m ∈ r.modules, Good m)
           ∧ out.map hdr2 = results.map hdr2 ++ ghdr2 g :: (rest.filter liveGene).map ghdr2
           ∧ ∀ acc, lineGo (interleave none (out.map itemR)) acc
               = lineGo (interleave none (results.map itemR ++ itemG g :: (rest.filter liveGene).map itemG)) acc := by
-        have happ : ∀ r ∈ results ++ [(⟨g.name, g.strand, g.region, ms, g.index⟩ : GeneResult)], ∀ m ∈ r.modules, Good m := by
+        have happ : ∀ r ∈ results ++ [(⟨g.name, g.strand, g.region, ms, g.index, ms.isEmpty⟩ : GeneResult)], ∀ m ∈ r.modules, Good m := by
           intro r hrm
           rcases List.mem_append.mp hrm with h | h
           · exact hr r h
           · simp at h; subst h; exact hms
-        obtain ⟨out, ho, h1, h2, h3⟩ := ih (n + 1) _ true hcon' (linkNext results _ rfl) hrest happ
+        have hbare' : ∀ r ∈ results ++ [(⟨g.name, g.strand, g.region, ms, g.index, ms.isEmpty⟩ : GeneResult)],
+            r.bare = true → r.modules = [] := by
+          intro r hrm hb
+          rcases List.mem_append.mp hrm with h | h
+          · exact hbare r h hb
+          · simp at h; subst h; simpa using hb
+        obtain ⟨out, ho, h1, h2, h3⟩ := ih (n + 1) _ true hcon' (linkNext results _ rfl) hrest happ hbare'
         refine ⟨out, ho, h1, ?_, ?_⟩
-        · rw [h2]; simp [hdr2, ghdr2]
+        · rw [h2]; simp [hdr2, ghdr2, hempty]
         · intro acc; rw [h3]; simp [hitem]
       cases hprev : (if live = true then results.getLast? else none) with
       | none => exact plain
@@ -156,20 +175,28 @@ theorem chainGo_blocks : ∀ (genes : List Gene) (n : Nat) (results : List GeneR
           have hreg : prev.region = g.region := by
             simp only [Bool.and_eq_true, beq_iff_eq] at hcond; exact hcond.2
           have hdl : ∀ r ∈ results.dropLast, ∀ m ∈ r.modules, Good m := fun r h => hr r (mem_dropLast h)
+          have hpb : prev.bare = false := by
+            cases hb : prev.bare with
+            | false => rfl
+            | true =>
+              have := hbare prev hpm hb
+              simp [this] at hcond
+          have hib : ms.isEmpty = false := by
+            simp only [Bool.and_eq_true, Bool.not_eq_true'] at hcond; exact hcond.1.2
           have finish : ∀ (pm im : List Module), (∀ m ∈ pm, Good m) → (∀ m ∈ im, Good m) →
               (∀ preE q restI acc,
-                 lineGo (preE ++ interleave q (⟨prev.index, prev.strand, prev.region, pm.flatMap (·.components)⟩
-                                               :: ⟨g.index, g.strand, g.region, im.flatMap (·.components)⟩ :: restI)) acc
+                 lineGo (preE ++ interleave q (⟨prev.index, prev.strand, prev.region, pm.flatMap (·.components), prev.bare⟩
+                                               :: ⟨g.index, g.strand, g.region, im.flatMap (·.components), ms.isEmpty⟩ :: restI)) acc
                  = lineGo (preE ++ interleave q (itemR prev :: itemG g :: restI)) acc) →
               ∃ out, chainGo rest (results.dropLast ++ [{ prev with modules := pm },
-                                      { (⟨g.name, g.strand, g.region, ms, g.index⟩ : GeneResult) with modules := im }]) true = .ok out
+                                      { (⟨g.name, g.strand, g.region, ms, g.index, ms.isEmpty⟩ : GeneResult) with modules := im }]) true = .ok out
                 ∧ (∀ r ∈ out, ∀ m ∈ r.modules, Good m)
                 ∧ out.map hdr2 = results.map hdr2 ++ ghdr2 g :: (rest.filter liveGene).map ghdr2
                 ∧ ∀ acc, lineGo (interleave none (out.map itemR)) acc
                     = lineGo (interleave none (results.map itemR ++ itemG g :: (rest.filter liveGene).map itemG)) acc := by
             intro pm im hpmg himg hline
             have hgood : ∀ r ∈ results.dropLast ++ [{ prev with modules := pm },
-                { (⟨g.name, g.strand, g.region, ms, g.index⟩ : GeneResult) with modules := im }], ∀ m ∈ r.modules, Good m := by
+                { (⟨g.name, g.strand, g.region, ms, g.index, ms.isEmpty⟩ : GeneResult) with modules := im }], ∀ m ∈ r.modules, Good m := by
               intro x hx
               rcases List.mem_append.mp hx with h | h
               · exact hdl x h
@@ -178,13 +205,23 @@ theorem chainGo_blocks : ∀ (genes : List Gene) (n : Nat) (results : List GeneR
                 · subst h; exact hpmg
                 · subst h; exact himg
             have hlinkN := linkNext (results.dropLast ++ [{ prev with modules := pm }])
-              { (⟨g.name, g.strand, g.region, ms, g.index⟩ : GeneResult) with modules := im } rfl
+              { (⟨g.name, g.strand, g.region, ms, g.index, ms.isEmpty⟩ : GeneResult) with modules := im } rfl
             rw [List.append_assoc] at hlinkN
-            obtain ⟨out, ho, h1, h2, h3⟩ := ih (n + 1) _ true hcon' hlinkN hrest hgood
+            have hbare' : ∀ r ∈ results.dropLast ++ ([{ prev with modules := pm }] ++
+                [{ (⟨g.name, g.strand, g.region, ms, g.index, ms.isEmpty⟩ : GeneResult) with modules := im }]),
+                r.bare = true → r.modules = [] := by
+              intro x hx hb
+              rcases List.mem_append.mp hx with h | h
+              · exact hbare x (mem_dropLast h) hb
+              · simp at h
+                rcases h with h | h
+                · subst h; simp only at hb; rw [hpb] at hb; cases hb
+                · subst h; simp only at hb; rw [hib] at hb; cases hb
+            obtain ⟨out, ho, h1, h2, h3⟩ := ih (n + 1) _ true hcon' hlinkN hrest hgood hbare'
             refine ⟨out, ho, h1, ?_, ?_⟩
             · rw [h2]
               conv => rhs; rw [hsplit]
-              simp [hdr2, ghdr2]
+              simp [hdr2, ghdr2, hempty]
             · intro acc
               rw [h3]
               conv => rhs; rw [hsplit]
@@ -205,9 +242,9 @@ theorem chainGo_blocks : ∀ (genes : List Gene) (n : Nat) (results : List GeneR
             · have hflat2 := combineOK_flat h4
               simp only [List.flatMap_append] at hflat2
               apply lineGo_exchange preE q _ _ _ _ restI
-              · exact ⟨rfl, rfl, rfl⟩
-              · exact ⟨rfl, rfl, rfl⟩
-              · unfold mergeable; simp [hpidx, hreg, hse]
+              · exact ⟨rfl, rfl, rfl, rfl⟩
+              · exact ⟨rfl, rfl, rfl, hempty⟩
+              · unfold mergeable; simp [hpidx, hreg, hse, hpb, hib]
               · have hb1 : isReverse prev.strand = true := by rw [hse, hgs]; rfl
                 simp only [hb1, if_true]
                 rw [hflat2]; unfold itemR itemG; simp only; rw [← kept_eq, ← hflat]
@@ -226,9 +263,9 @@ theorem chainGo_blocks : ∀ (genes : List Gene) (n : Nat) (results : List GeneR
             · have hflat2 := combineOK_flat h4
               simp only [List.flatMap_append] at hflat2
               apply lineGo_exchange preE q _ _ _ _ restI
-              · exact ⟨rfl, rfl, rfl⟩
-              · exact ⟨rfl, rfl, rfl⟩
-              · unfold mergeable; simp [hpidx, hreg, hse]
+              · exact ⟨rfl, rfl, rfl, rfl⟩
+              · exact ⟨rfl, rfl, rfl, hempty⟩
+              · unfold mergeable; simp [hpidx, hreg, hse, hpb, hib]
               · have hb1 : isReverse prev.strand = false := by
                   rw [← hse]; simpa [isReverse] using hgs
                 simp only [hb1, Bool.false_eq_true, if_false]
@@ -304,8 +341,9 @@ theorem mem_interleave (q : Option LineItem) : ∀ (l : List LineItem) (q : Opti
     · exact List.mem_append_right _ (List.mem_cons_of_mem _ (mem_interleave q l (some y) x h))
 
 theorem zip_report_items : ∀ (live : List Gene) (R : List GeneResult), R.map hdr2 = live.map ghdr2 →
-    (live.zip (R.map report)).map (fun (g, o) => (⟨g.index, g.strand, g.region, o.2.flatten⟩ : LineItem))
-      = R.map (fun r => (⟨r.index, r.strand, r.region, (report r).2.flatten⟩ : LineItem))
+    (live.zip (R.map report)).map (fun (g, o) =>
+        (⟨g.index, g.strand, g.region, o.2.flatten, (keptComps g.name g.domains).isEmpty⟩ : LineItem))
+      = R.map (fun r => (⟨r.index, r.strand, r.region, (report r).2.flatten, r.bare⟩ : LineItem))
   | [], [], _ => rfl
   | [], _ :: _, h => by simp at h
   | _ :: _, [], h => by simp at h
@@ -314,8 +352,8 @@ theorem zip_report_items : ∀ (live : List Gene) (R : List GeneResult), R.map h
     obtain ⟨h1, h2⟩ := h
     simp only [List.map_cons, List.zip_cons_cons, zip_report_items live R h2]
     simp only [hdr2, ghdr2, Prod.mk.injEq] at h1
-    obtain ⟨_, a, b, c⟩ := h1
-    rw [a, b, c]
+    obtain ⟨_, a, b, c, d⟩ := h1
+    rw [a, b, c, d]
 
 theorem sep_not_known : ¬ Known sepComp := by
   intro h; have := h.2; simp [sepComp] at this
@@ -327,7 +365,7 @@ theorem chain_blocks_spec (genes : List Gene) (hcon : Consec 0 genes)
       ∧ chainLine (R.map itemR) = chainLine (geneItems genes)
       ∧ chainBlocksOK genes (R.map report) = true := by
   obtain ⟨R, hR, hgood, hh, hline⟩ := chainGo_blocks genes 0 [] false hcon (fun h => by cases h) hg
-    (fun r hr => by cases hr)
+    (fun r hr => by cases hr) (fun r hr => by cases hr)
   simp only [List.map_nil, List.nil_append] at hh hline
   have hexact : chainLine (R.map itemR) = chainLine (geneItems genes) := by
     unfold chainLine geneItems
@@ -344,7 +382,7 @@ theorem chain_blocks_spec (genes : List Gene) (hcon : Consec 0 genes)
     unfold chainLine
     apply lineGo_interleave_sublist _ itemR _ R none none [] [] trivial (List.Sublist.refl _)
     intro r
-    exact ⟨⟨rfl, rfl, rfl⟩, filter_flatMap_sublist bigModule (·.components) r.modules⟩
+    exact ⟨⟨rfl, rfl, rfl, rfl⟩, filter_flatMap_sublist bigModule (·.components) r.modules⟩
   · rw [List.all_eq_true]
     intro o ho
     obtain ⟨r, hr, rfl⟩ := List.mem_map.mp ho
